@@ -41,3 +41,8 @@ func (s *Storage) Module() *storage.InMemoryStorage { return s.m }
 func (s *Storage) Start(workers, queueDepth int) error    { return s.m.VerifStart(workers, queueDepth) }
 func (s *Storage) Stop() error                            { return s.m.VerifStop() }
 func (s *Storage) Channel() chan *protocol.StorageRequest { return s.m.VerifChannel() }
+
+// HoldConsumerReadLock takes the read lock on the cluster's group map, as a concurrent reader does; the result releases it.
+func (s *Storage) HoldConsumerReadLock(cluster string) func() {
+	return s.m.VerifHoldConsumerReadLock(cluster)
+}
